@@ -143,6 +143,57 @@ func (pl *plit) stageIDOf(e ast.Expr) string {
 			}
 		}
 	}
+	// a stage constructor call (`endLifecycleStage(StageIDClosed, "closed")`): the ID is the constant argument that the
+	// constructor's literal uses for ID
+	if call, ok := e.(*ast.CallExpr); ok {
+		fn, ok := call.Fun.(*ast.Ident)
+		if !ok {
+			return ""
+		}
+		for _, f := range pl.pkg.Syntax {
+			for _, d := range f.Decls {
+				fd, ok := d.(*ast.FuncDecl)
+				if !ok || fd.Recv != nil || fd.Body == nil || fd.Name.Name != fn.Name {
+					continue
+				}
+				out := ""
+				ast.Inspect(fd.Body, func(n ast.Node) bool {
+					cl, ok := n.(*ast.CompositeLit)
+					if !ok {
+						return true
+					}
+					for _, el := range cl.Elts {
+						kv, ok := el.(*ast.KeyValueExpr)
+						if !ok {
+							continue
+						}
+						if id, ok := kv.Key.(*ast.Ident); !ok || id.Name != "ID" {
+							continue
+						}
+						v := kv.Value
+						if conv, ok := v.(*ast.CallExpr); ok && len(conv.Args) == 1 {
+							v = conv.Args[0]
+						}
+						nm, ok := v.(*ast.Ident)
+						if !ok {
+							continue
+						}
+						k := 0
+						for _, fld := range fd.Type.Params.List {
+							for _, pn := range fld.Names {
+								if pn.Name == nm.Name && k < len(call.Args) {
+									out, _ = pl.constStr(call.Args[k])
+								}
+								k++
+							}
+						}
+					}
+					return true
+				})
+				return out
+			}
+		}
+	}
 	return ""
 }
 
